@@ -395,12 +395,21 @@ type plainWrap struct{ grpc.ClientConnInterface }
 
 func (p plainWrap) Unwrap() grpc.ClientConnInterface { return p.ClientConnInterface }
 
+// taggedWrap is another wrapper of the application's own: a struct used by value that holds a slice, so two
+// of them cannot be compared with == (the library has no reason to compare channels).
+type taggedWrap struct {
+	grpc.ClientConnInterface
+	tags []string
+}
+
+func (p taggedWrap) Unwrap() grpc.ClientConnInterface { return p.ClientConnInterface }
+
 // checkC17Foreign: wrappers of the application's own between, above and below the library's layers. The
 // connection argument is the root connection whatever kinds of wrapper lie in between; every library layer is
 // still entered exactly once, outermost first.
 func checkC17Foreign(e *core.Env, realCC *grpc.ClientConn) {
 	for _, root := range []string{"real", "fake"} {
-		for _, pattern := range []string{"FL", "LFL", "FFL", "LFFL", "FLFL", "LLFL", "FLF", "LFLF"} { // bottom to top
+		for _, pattern := range []string{"FL", "LFL", "FFL", "LFFL", "FLFL", "LLFL", "FLF", "LFLF", "VL", "VVL", "LVVL", "VFVL", "VVLV"} { // bottom to top
 			var base grpc.ClientConnInterface = realCC
 			want := realCC
 			if root == "fake" {
@@ -412,6 +421,10 @@ func checkC17Foreign(e *core.Env, realCC *grpc.ClientConn) {
 			for _, k := range pattern {
 				if k == 'F' {
 					top = plainWrap{top}
+					continue
+				}
+				if k == 'V' {
+					top = taggedWrap{top, []string{"a value type that cannot be compared with =="}}
 					continue
 				}
 				id := nL
@@ -427,17 +440,23 @@ func checkC17Foreign(e *core.Env, realCC *grpc.ClientConn) {
 			for _, kind := range []string{"unary", "stream"} {
 				seen, order = nil, nil
 				cctx, cancel := context.WithCancel(context.Background())
-				if kind == "stream" {
-					st, err := top.NewStream(cctx, ServerStream.StreamDesc(), ServerStream.Method())
-					if err == nil && st != nil {
-						st.CloseSend()
+				pan := guard(func() {
+					if kind == "stream" {
+						st, err := top.NewStream(cctx, ServerStream.StreamDesc(), ServerStream.Method())
+						if err == nil && st != nil {
+							st.CloseSend()
+						}
+					} else {
+						top.Invoke(cctx, Unary.Method(), &tpb.Message{}, new(tpb.Message))
 					}
-				} else {
-					top.Invoke(cctx, Unary.Method(), &tpb.Message{}, new(tpb.Message))
-				}
+				})
 				cancel()
 				e.Eval(fmt.Sprintf("foreign|%s|%s|%s", root, pattern, kind), true)
-				desc := fmt.Sprintf("root=%s wrappers bottom-to-top=%s (F = the application's own WrappedClientConn, L = InterceptClientConn), %s call", root, pattern, kind)
+				if pan != "" {
+					e.Violate("call/foreign-wrappers/panic", fmt.Sprintf("root=%s wrappers bottom-to-top=%s, %s call: %s", root, pattern, kind, trunc(pan, 400)), nil)
+					continue
+				}
+				desc := fmt.Sprintf("root=%s wrappers bottom-to-top=%s (F, V = the application's own WrappedClientConns, V an uncomparable value type; L = InterceptClientConn), %s call", root, pattern, kind)
 				for li, cc := range seen {
 					if cc != want {
 						e.Violate("call/foreign-wrappers/cc", fmt.Sprintf("%s: interceptor #%d (outermost first) got cc=%p, the root connection is %p", desc, li, cc, want), nil)
